@@ -74,7 +74,8 @@ class Driver:
             kvs = [v for _, o in objs for k, v in o.items() if isinstance(v, dict) and (k == "config" or k in vocab.kv_keys())]
             for kv in self.r.sample(kvs, min(len(kvs), 2)):
                 try:
-                    kv[self.r.choice(["__note__", "__x__", "__comments__"])] = self.r.choice(["hidden text", "1"])
+                    # (not __comments__ / __position__: those names are the library's own bookkeeping and have a fixed shape)
+                    kv[self.r.choice(["__note__", "__x__", "__extra__"])] = self.r.choice(["hidden text", "1"])
                     res.count("hidden_keys_added_in_key_value_blocks")
                 except Exception:
                     pass
